@@ -709,6 +709,11 @@ RE_C08 = _re.compile(r"(the bytes are no longer acceptable|no longer acceptable|
 
 
 def classify(why, res="ok"):
+    if " ;; " in why:
+        out = set()
+        for part in why.split(" ;; "):
+            out |= classify(part, res)
+        return out
     if why.startswith("panic"):
         return {"C08", "C09", "C10"}
     if res == "err" and RE_C08.search(why) and not RE_C10.search(why):
